@@ -279,7 +279,9 @@ func fuzzCase(seed int64, i int) fuzzResult {
 		case x < 92:
 			res.Counts["knob"]++
 			shape.WriteByte('k')
-			switch r.Intn(8) {
+			switch r.Intn(9) {
+			case 7:
+				n.NilBlocks = r.Intn(4)
 			case 0:
 				n.RejectFrom[uint16(r.Intn(len(n.D.Validators)+1))] = r.Intn(2) == 0
 			case 1:
